@@ -8,7 +8,7 @@
    elements are premised to be group members -- which they are for honest statements. *)
 From Coq Require Import ZArith List Lia String.
 From LT Require Import Zbase gen_Consts SigmaPrim KeyRingModel KeyRingLemmas SigmaModel SigmaLemmas.
-From LT Require Import gen_FSInputs FsModel SigmaFsAgree SigmaFsLemmas.
+From LT Require Import gen_FSInputs FsModel SigmaFsAgree SigmaFsLemmas PedersenModel PedersenLemmas.
 Import ListNotations.
 Local Open Scope Z_scope.
 
@@ -118,6 +118,33 @@ Theorem C03_fiat_shamir_arguments_agree_each : forall n b, In (n, b) fs_agreemen
 Proof. exact fs_arguments_agree_each. Qed.
 Print Assumptions C03_fiat_shamir_arguments_agree_each.
 
+(* Pedersen commitments (src/PedersenCOM.cc): generators with index >= TMCG_MAX_FPOWM_N have no fixed-base table; for EVERY number of
+   messages (both branches) CommitBy with and without timing protection and Commit compute h^r * prod g_i^{m_i} mod p, and Verify accepts.
+   wf_pcom: 1 < p odd, 0 < q, |q| <= TMCG_MAX_FPOWM_T, h^q = 1, every g_i^q = 1; messages in [0,q) *)
+Theorem C03_pedersen_commit_by : forall C, wf_pcom C -> forall r ms prot,
+  0 <= r < pc_q C -> msgs_ok (pc_q C) ms -> (List.length ms <= List.length (pc_g C))%nat ->
+  commit_by C r ms prot = Some (commitment C r ms).
+Proof. exact commit_by_spec. Qed.
+Print Assumptions C03_pedersen_commit_by.
+
+Theorem C03_pedersen_commit : forall C, wf_pcom C -> forall raw ms,
+  msgs_ok (pc_q C) ms -> (List.length ms <= List.length (pc_g C))%nat ->
+  commit C raw ms = Some (commitment C (raw mod pc_q C) ms, raw mod pc_q C).
+Proof. exact commit_spec. Qed.
+Print Assumptions C03_pedersen_commit.
+
+Theorem C03_pedersen_commit_eq_commit_by : forall C, wf_pcom C -> forall raw ms prot,
+  msgs_ok (pc_q C) ms -> (List.length ms <= List.length (pc_g C))%nat ->
+  exists c, commit C raw ms = Some (c, raw mod pc_q C) /\ commit_by C (raw mod pc_q C) ms prot = Some c.
+Proof. exact commit_eq_commit_by. Qed.
+Print Assumptions C03_pedersen_commit_eq_commit_by.
+
+Theorem C03_pedersen_verify_complete : forall C, wf_pcom C -> forall r ms,
+  0 <= r < pc_q C -> msgs_ok (pc_q C) ms -> (List.length ms <= List.length (pc_g C))%nat ->
+  pverify C (commitment C r ms) r ms = Accept.
+Proof. exact verify_commit. Qed.
+Print Assumptions C03_pedersen_verify_complete.
+
 (* non-vacuity: the tiny group of KeyRingLemmas satisfies the hypotheses; 16 = 2^4 is a group element *)
 Example C03_nonvacuous_wf : wf_params dup_H 8 dup_G /\ elem dup_G 16 /\ elem dup_G 8.
 Proof. split; [exact dup_wf|]. split; vm_compute; reflexivity. Qed.
@@ -139,5 +166,11 @@ Example C03_nonvacuous_remasking :
   remask_prove dup_H dup_G 16 (precompute 16 11) 8 16 13 6 4 9 = Some (0, 9) /\
   remask_verify dup_H 8 dup_G 16 (precompute 16 11) 8 16 13 6 true 0 9 = Accept.
 Proof. repeat split; vm_compute; reflexivity. Qed.
+Example C03_nonvacuous_pedersen : wf_pcom (mkPcom 23 11 16 [2; 4; 8]) /\ msgs_ok 11 [3; 0; 10] /\
+  commit_by (mkPcom 23 11 16 [2; 4; 8]) 5 [3; 0; 10] true = commit_by (mkPcom 23 11 16 [2; 4; 8]) 5 [3; 0; 10] false.
+Proof.
+  split; [constructor; try reflexivity; [vm_compute; discriminate|repeat constructor]|].
+  split; [repeat constructor; lia|vm_compute; reflexivity].
+Qed.
 Example C03_nonvacuous_fs : List.length fs_agreements = 16%nat /\ In ("vsshe lambda"%string, true) fs_agreements.
 Proof. split; [reflexivity|]. vm_compute. tauto. Qed.
